@@ -70,6 +70,7 @@ def run(ctx):
             with ctx.renamed({"C03.GUARD": "C07.VEC", "C03.MARK": "C07.VEC"}):
                 c03.rule_maybe_done(ctx, M)
             rule_take(ctx, M)
+            rule_maybe_done_poll(ctx, M)
         nv = 0 if base(cfg) == "core" else 1
         ctx.floor("C07.OK", cfg, 78 + 1 + 12 + 1)
         ctx.floor("C07.SLOT", cfg, 78 + 1 + 12 + 1)
@@ -231,6 +232,58 @@ def rule_take(ctx, M):
                 ctx.fail("C07.VEC", b.def_, p, site=b.span)
         else:
             ctx.ok("C07.VEC", b.def_, "%s: Some(x) iff self was Done(%s(x)); self becomes Gone" % (name, variant))
+
+
+def rule_maybe_done_poll(ctx, M):
+    """MaybeDone::poll (the slot type of Vec race_ok, whose scan re-polls every element on every wake-up):
+       Future(f) -> the one child poll; on Ready the slot becomes Done(output) and Ready(()) is returned; Pending is passed on;
+       Done(_)   -> Ready(()) at once, without polling and without panicking (a failed child is polled again by design);
+       nothing is polled in any other state."""
+    b = None
+    for x in M.F.bodies:
+        if x.name == "poll" and "maybe_done" in x.def_ and x.kind == "AssocFn" and x.j.get("impl_trait_c") == "core::future::future::Future":
+            b = x
+    ctx.require(b is not None, "MaybeDone::poll")
+    bi = M.info(b)
+    probs = []
+    cps = bi.child_polls()
+    disc = [e for e in bi.switches if e["kind"] == "discr" and bi.edge(e, "Future") and bi.edge(e, "Done")]
+    if len(cps) != 1 or not disc:
+        probs.append("expected one child poll and a match on the slot's state")
+    else:
+        c = cps[0]
+        fut_e = [bi.edge(e, "Future") for e in disc]
+        done_e = [bi.edge(e, "Done") for e in disc]
+        if not bi.guarded_by(c.block, fut_e):
+            probs.append("the inner future is polled outside the Future state")
+        # Done: a return is reached on every path, it is Ready, and nothing is polled on the way
+        rets = flow.returned_values(bi)
+        r = bi.reach_from_edges(done_e)
+        if c.block in r:
+            probs.append("a slot that is already Done is polled again")
+        ok_ret, bad = bi.must_reach([t for _, t in done_e], list(bi.return_blocks), [])
+        kinds = {k for blk, k, p_, t in rets if blk in r}
+        if not ok_ret or not any(x in r for x in bi.return_blocks) or kinds - {"Ready"}:
+            probs.append("a slot that is already Done does not answer Ready(()) (the Vec scan polls finished elements again)")
+        # Ready of the inner future: the slot is overwritten with Done(payload) before Ready is returned
+        re_ = bi.outcome_edges(c, "Ready")
+        pe = bi.outcome_edges(c, "Pending")
+        payload = ("field", ("variant", c.term, "Ready"), 0)
+        sets = []
+        for s in bi.sites:
+            if s.callee.name == "set" and s.callee.owner == "Pin" and s.arg(1) == ("agg", ("MaybeDone", "Done"), (payload,)):
+                sets.append(s.block)
+        for blk, pt, v, sp in scan.field_writes(bi):
+            if v == ("agg", ("MaybeDone", "Done"), (payload,)):
+                sets.append(blk)
+        if not re_ or not sets or not bi.must_reach([t for _, t in re_], sets, bi.return_blocks)[0]:
+            probs.append("the output is not stored as Done(output) before Ready is returned")
+        if pe:
+            rp = bi.reach_from_edges(pe)
+            if {k for blk, k, p_, t in rets if blk in rp} - {"Pending"}:
+                probs.append("Pending of the inner future is not passed on")
+    ctx.check(not probs, "C07.VEC", b.def_, "MaybeDone::poll: Future -> one poll, Done(output) stored on Ready; Done -> Ready(()) without polling",
+              site=b.span, path=probs)
 
 
 def rule_vec(ctx, M, u):
